@@ -95,6 +95,11 @@ type Execution struct {
 	// AliveAtMainExit lists the spawn sites of threads that had not finished when thread 0
 	// returned (they may still finish on their own; those that never do are a "leak").
 	AliveAtMainExit []string
+	// AfterMain lists what library goroutines still did after thread 0 had returned that is
+	// observable outside the library: user callbacks, calls on the user's sink/source, pool
+	// buffers taken or released. (A goroutine that merely returns, or closes an internal
+	// channel, does not count.)
+	AfterMain []string
 }
 
 type Sched struct {
@@ -528,6 +533,18 @@ func Yield(label string) {
 		return
 	}
 	s.yield(op{kind: opYield, note: label})
+}
+
+// Note records an externally observable action of the running thread (a user callback, a call
+// on the user's reader/writer); it matters only if thread 0 has already returned.
+func Note(what string) {
+	s := cur
+	if s == nil || s.aborting || s.cur == nil {
+		return
+	}
+	if s.x.MainFinished && s.cur.id != 0 {
+		s.x.AfterMain = append(s.x.AfterMain, what+" by "+s.cur.site)
+	}
 }
 
 // ThreadID returns the id of the running controlled thread (-1 outside a run).
